@@ -111,7 +111,7 @@ func (p c05) RunBatch(ctx *core.Ctx, batch int) {
 	default:
 		// random deeper trees
 		r := ctx.Rand("deep")
-		leaves := append(qt.FullLeaves(), qt.HostileLeaves(r, gen.HostileStrings, 16, true)...)
+		leaves := append(qt.FullLeaves(), qt.HostileLeaves(r, gen.ValueDict(r, 80), 24, true)...)
 		for i := 0; i < 1500; i++ {
 			t := qt.RandomTree(r, leaves, 2+r.Intn(5))
 			if t.Size() > 40 {
